@@ -187,6 +187,12 @@ class Expect(object):
             return ty[len('inst_ref_set<'):-1]
         return None
 
+    @staticmethod
+    def array_root(va):
+        while va['t'] == 'IndexAccessNode':
+            va = va['handle']
+        return va
+
     def declare_if_new(self, name, ty):
         if self.sc.find(name) is None:
             d = self.sc.declare(name, ty)
@@ -202,11 +208,15 @@ class Expect(object):
                 new = self.sc.find(va['variable_name']) is None
                 self.declare_if_new(va['variable_name'], rty)
                 self.exprs.append((va, self.span(va), rty if new else self.sc.find(va['variable_name'])['ty']))
-            elif va['t'] == 'IndexAccessNode' and va['handle']['t'] == 'VariableAccessNode':
-                self.declare_if_new(va['handle']['variable_name'], 'array')
-                self.exprs.append((va, self.span(va), None))
-                self.exprs.append((va['handle'], self.span(va['handle']), None))
-                self.expr(va['expression'])
+            elif va['t'] == 'IndexAccessNode' and self.array_root(va)['t'] == 'VariableAccessNode':
+                root = self.array_root(va)
+                self.declare_if_new(root['variable_name'], 'array')
+                el = va
+                while el['t'] == 'IndexAccessNode':          # m[1][2]: the element, m[1], then the variable itself
+                    self.exprs.append((el, self.span(el), None))
+                    self.expr(el['expression'])
+                    el = el['handle']
+                self.exprs.append((root, self.span(root), None))
             else:
                 self.expr(va)
         elif t == 'ReturnNode':
